@@ -13,6 +13,8 @@ mod c04;
 mod c05;
 mod c06;
 mod c07;
+mod c08;
+mod c09;
 mod c16;
 mod c18;
 pub mod expand;
@@ -105,6 +107,8 @@ pub fn drive(prop: &str, tier: &str, seed: u64, outdir: &str) -> u64 {
         "C05" => c05::drive(&mut tr, &mut rng, thorough),
         "C06" => c06::drive(&mut tr, &mut rng, thorough),
         "C07" => c07::drive(&mut tr, &mut rng, thorough),
+        "C08" => c08::drive(&mut tr, &mut rng, thorough),
+        "C09" => c09::drive(&mut tr, &mut rng, thorough),
         "C16" => c16::drive(&mut tr, &mut rng, thorough),
         "C18" => c18::drive(&mut tr, &mut rng, thorough),
         _ => panic!("no driver for {}", prop),
